@@ -2,11 +2,11 @@
 EXTENDS Lexer
 StmtsA == { St("lab", "g1", 0, 0), St("i0", "", 0, 0), St("i1n", "", 5, 0), St("i1l", "g1", 0, 0), St("i1r", "a", 0, 0),
             St("i1r", "b", 0, 0), St("dat", "", 17, 34), St("i1c", "", 97, 0), St("i1c", "", 65, 0), St("str", "", 0, 0),
-            St("lab", "l1", 0, 0), St("i1l", "l1", 0, 0), St("strg", "", 0, 0), St("brx", "g1", 0, 0), St("ldo", "", 0, 0), St("strt", "", 0, 0) }
-StmtsB == { St("lab", "g1", 0, 0), St("i0", "", 0, 0), St("i1n", "", 5, 0), St("i1l", "g1", 0, 0), St("i1r", "a", 0, 0), St("dat", "", 17, 34), St("brx", "g1", 0, 0), St("ldo", "", 0, 0),
+            St("lab", "l1", 0, 0), St("i1l", "l1", 0, 0), St("strg", "", 0, 0), St("brx", "g1", 0, 0), St("ldo", "", 0, 0), St("strt", "", 0, 0), St("lin", "", 0, 0) }
+StmtsB == { St("lab", "g1", 0, 0), St("i0", "", 0, 0), St("i1n", "", 5, 0), St("i1l", "g1", 0, 0), St("i1r", "a", 0, 0), St("dat", "", 17, 34), St("brx", "g1", 0, 0), St("ldo", "", 0, 0), St("lin", "", 0, 0),
             St("lab", "l1", 0, 0), St("i1l", "l1", 0, 0) }
 \* preprocessor statements among ordinary ones
-StmtsP == { St("cel", "", 85, 102), St("cif", "eq", 17, 34), St("cif", "ne", 17, 34), St("def", "", 51, 0), St("ifd", "", 68, 0), St("i1n", "", 5, 0), St("lab", "g1", 0, 0) }
+StmtsP == { St("cel", "", 85, 102), St("cif", "eq", 17, 34), St("cif", "ne", 17, 34), St("def", "", 51, 0), St("ifd", "", 68, 0), St("dft", "", 119, 136), St("i1n", "", 5, 0), St("lab", "g1", 0, 0) }
 StylesSep == { Sy("lo", s, m, p) : s \in {"s1", "s3", "tab", "ts"}, m \in {"none", "plain"}, p \in {"own", "blank"} }
 StylesAll == { Sy(c, s, m, p) : c \in {"lo", "up", "mi"}, s \in {"s1", "s3", "tab", "ts"}, m \in {"none", "plain", "quotes"},
                                 p \in {"own", "join", "blank"} }
